@@ -45,7 +45,8 @@ CHECKS = {
                   "invariant tables with an exact least-squares stub",
         text="Exact for all real tensors: per system z3 proves relations |= every Laue-invariance equation and invariance |= every "
              "parsed relation (both inclusions of subspaces of R^21). Bounded for the fill part: supplied-set families and 1-3 rows, "
-             "each output column proved equal to the invariant tensor's component.",
+             "each output column proved equal to the invariant tensor's component, also when the same supplied set is filled a second time in the "
+             "same process with its columns in another order.",
         note="Trusted: the Laue generators written in the harness (standard setting), sympy's exact pseudo-inverse as the lstsq "
              "specification (LAPACK's numerical rank decision is outside), the tensor expansion map. Non-vanishing components are "
              "assumed not to lie within drop_atol of zero at every volume (recorded cut).",
@@ -58,7 +59,8 @@ CHECKS = {
         text="Bounded solver verdict: for 8 systems x supplied-set families (sufficient and insufficient) x 4 flag settings, every "
              "path of the real function is shown to raise exactly when the refusal condition holds for all table values on that "
              "path; accepted tables are the exact least-squares solution (so no supplied value or relation moves by more than "
-             "sqrt(residual_atol)); order / case / pass-through / idempotence identities; dtype, cwd and relation-path twins concrete.",
+             "sqrt(residual_atol)); order / case / pass-through / idempotence identities; dtype, cwd, relation-path, rewritten-relations-file "
+             "and command-line-flag twins concrete.",
         note="Trusted: exact-LSQ stub as the contract of numpy.linalg.lstsq; the twins (dtype, working directory, file path) are "
              "concrete runs, not solver results. Subsets of supplied components outside the listed families are outside the claim.",
         design="3/C09"),
@@ -139,7 +141,8 @@ CHECKS = {
              "rho v_s^2 = G_VRH and rho v_p^2 = K_VRH + 4/3 G_VRH in km/s. Reuss<=Hill<=Voigt (K and G) for the general symmetric "
              "stiffness of each key set (up to all 21 components symbolic) with S C = 1: six polynomial identities in all C and S entries "
              "(certificates for w.C.w = b(ab - n^2)), Cauchy-Schwarz and a 5-term sum lemma by nlsat; direct nlsat cross-check on cubic "
-             "and transversely isotropic tensors.",
+             "and transversely isotropic tensors; a calculator's compliances / Reuss / Hill / velocities are unchanged after a second "
+             "calculator was built in the same process.",
         note="S.C = I itself is the contract of numpy.linalg.inv (stubbed); positive definiteness enters the ordering only through 12 "
              "instance vectors; the lemmas are each a solver verdict, their composition (modus ponens over the lemma statements) is done "
              "by the harness; unit factors read as symbols when within 1e-8 of CODATA.",
@@ -165,7 +168,9 @@ CHECKS = {
              "adiabatic modulus equals LSQ3(eps(V0,V), V*c*(GPa->au))(eps(V0,v))/v plus the C01-C04 phonon pipeline evaluated on "
              "(interpolated spectrum, [dgamma, gamma, gamma^2], weights, atom count, strain fractions); strain fractions are the normalised "
              "centred log-derivatives of the fitted axes (thirds without lattice block); static P = -grad LSQ(E)/grad v; static part "
-             "T-independent, phonon part independent of the static table.",
+             "T-independent, phonon part independent of the static table; every grid setting reaches the QHA calculator unchanged on top of "
+             "qha's defaults and read_input places volumes / energies / frequencies[volume,q,mode] / weights from the right fields; the "
+             "settings of a second Calculator load are its own file over the packaged defaults (history twin).",
         note="Outside: text parsing of the three files, that qha/LAPACK/scipy kernels compute what their names say, grid settings; the "
              "crystal-system fill is C08/C09. In the lattice case the strain fractions handed downstream are abstracted by fresh symbols "
              "after their value has been checked (recorded cut).",
